@@ -102,6 +102,9 @@ Definition spec_code (c : case) : N :=
       else if negb (stream_ok tail sub tags s) then 1
       else if negb (all_equal hc && all_equal hs) then 2
       else if negb sub && negb (bad =? 0) then 5
+      (* byte-accounting runs (short reads next to ReadFrom) carry no stream: bad counts the byte values
+         that were delivered another number of times than they were written *)
+      else if sub && tail && (match s with [] => true | _ => false end) && negb (bad =? 0) then 5
       else if negb (active =? 9999) && negb (active =? 1) then 6
       else 0
   | CRace => 10
